@@ -3,6 +3,8 @@
 // made by yara code fails (mode A) or the k-th and all later ones fail (mode B).
 // Each (scenario, k, mode) runs in a forked child.  DESIGN.md §5.C16.
 #include "engine.h"
+#include <sys/stat.h>
+#include <fcntl.h>
 #include "rulelab.h"
 #include <unistd.h>
 #include <fcntl.h>
@@ -174,6 +176,21 @@ static void s_compile_include(Sc& s) {
   if (!sc_add(s, c, "include \"one.yar\"\nrule top { condition: inc_one }\n")) return;
   YR_RULES* r = sc_get_rules(s, c); if (!r) return;
   sc_scan_mem(s, r, "zz incl zz");
+}
+
+// include files read by yara's own include callback (open / fstat / read of real files) and rules given through a file
+// descriptor and through a FILE*: the file-reading entry points of the compiler under allocation failure
+static void s_compile_files(Sc& s) {
+  std::string dir = tmp_dir() + "/c16inc"; mkdir(dir.c_str(), 0755);
+  write_file(dir + "/two.yar", "rule inc_two { strings: $a = \"incl\" condition: $a }\n");
+  write_file(dir + "/one.yar", "include \"two.yar\"\nrule inc_one { condition: inc_two }\n");
+  write_file(dir + "/top.yar", "include \"" + dir + "/one.yar\"\nrule top { condition: inc_one }\n");
+  write_file(dir + "/more.yar", "rule more { strings: $m = /mo+re/ condition: $m }\n");
+  s.arm(); if (!sc_init(s)) return; YR_COMPILER* c = sc_compiler(s); if (!c) return;
+  { int fd = open((dir + "/top.yar").c_str(), O_RDONLY); s.pre(); s.comp_cb_errors = 0; int n = yr_compiler_add_fd(c, fd, NULL, "top.yar"); close(fd); if (!s.C("yr_compiler_add_fd", n)) return; }
+  { FILE* f = fopen((dir + "/more.yar").c_str(), "r"); s.pre(); s.comp_cb_errors = 0; int n = yr_compiler_add_file(c, f, "ns2", "more.yar"); fclose(f); if (!s.C("yr_compiler_add_file", n)) return; }
+  YR_RULES* r = sc_get_rules(s, c); if (!r) return;
+  sc_scan_mem(s, r, "zz incl zz moooore");
 }
 static const char* EXT_RULES =
   "rule e_int { condition: ext_i == 7 }\nrule e_bool { condition: ext_b }\nrule e_float { condition: ext_f > 1.0 }\n"
@@ -403,7 +420,7 @@ static const Scenario SCENARIOS[] = {
   {"init_fini", s_init_fini}, {"compile_strings", s_compile_strings}, {"compile_regex", s_compile_regex}, {"compile_cond", s_compile_cond}, {"compile_strings_tiny_arena", s_compile_strings_tiny}, {"compile_regex_tiny_arena", s_compile_regex_tiny}, {"compile_cond_tiny_arena", s_compile_cond_tiny}, {"compile_tiny_arena_16", s_tiny_sweep<16>}, {"compile_tiny_arena_24", s_tiny_sweep<24>}, {"compile_tiny_arena_32", s_tiny_sweep<32>}, {"compile_tiny_arena_40", s_tiny_sweep<40>}, {"compile_tiny_arena_48", s_tiny_sweep<48>}, {"compile_tiny_arena_56", s_tiny_sweep<56>}, {"compile_tiny_arena_64", s_tiny_sweep<64>}, {"compile_tiny_arena_72", s_tiny_sweep<72>}, {"compile_tiny_arena_80", s_tiny_sweep<80>}, {"compile_tiny_arena_88", s_tiny_sweep<88>}, {"compile_tiny_arena_96", s_tiny_sweep<96>}, {"compile_tiny_arena_104", s_tiny_sweep<104>}, {"compile_tiny_arena_112", s_tiny_sweep<112>}, {"compile_tiny_arena_120", s_tiny_sweep<120>}, {"compile_tiny_arena_128", s_tiny_sweep<128>}, {"compile_tiny_arena_136", s_tiny_sweep<136>},
   {"compile_pe", s_compile_pe}, {"compile_elf", s_compile_elf}, {"compile_dotnet", s_compile_dotnet}, {"compile_macho", s_compile_macho},
   {"compile_dex", s_compile_dex}, {"compile_small_mods", s_compile_small_mods}, {"compile_error", s_compile_error},
-  {"compile_namespaces", s_compile_namespaces}, {"compile_include", s_compile_include}, {"externals", s_externals}, {"externals_retry", s_externals_retry}, {"scanner_define_string", s_scanner_define_string},
+  {"compile_namespaces", s_compile_namespaces}, {"compile_include", s_compile_include}, {"compile_files", s_compile_files}, {"externals", s_externals}, {"externals_retry", s_externals_retry}, {"scanner_define_string", s_scanner_define_string},
   {"save_load_stream", s_save_load_stream}, {"save_load_file", s_save_load_file},
   {"scan_text", s_scan_text}, {"scan_regex", s_scan_regex}, {"scan_cond", s_scan_cond}, {"scan_many_matches", s_scan_many_matches},
   {"scan_pe", s_scan_pe}, {"scan_pe_signed", s_scan_pe_signed}, {"scan_elf", s_scan_elf}, {"scan_dotnet", s_scan_dotnet},
